@@ -62,7 +62,7 @@ func TestCheck(t *testing.T) {
 		"late replays and duty expiry followed by replays. A simulated VC per node signs exactly what its node serves. " +
 		"non-trivial = at least one broadcast AND at least one fault or divergence took effect (round change, differing candidate data, refused or equivocating partial signature, envelopes lost to a crash); " +
 		"distinct = hash of (n, roles, duty kinds, object versions, effects observed, broadcast pattern)")
-	r.Assume("oracle trusted base: go-eth2-client hash-tree-roots, the beacon mock's spec / genesis / fork schedule read back once per case, tbls.Verify (herumi); signing roots and domains are recomputed in the harness, not through core.VerifyEth2SignedData or eth2util/signing")
+	r.Assume("oracle trusted base: go-eth2-client hash-tree-roots, the beacon mock's spec / genesis / fork schedule read back once per shared mock, tbls.Verify (herumi); signing roots and domains are recomputed in the harness, not through core.VerifyEth2SignedData or eth2util/signing")
 	r.Assume("safety only: liveness of the pipeline is not claimed; a case that broadcasts nothing is trivial. Real round timers and real goroutine scheduling drive the workload; wall-clock only paces it")
 	r.Assume("six beacon mocks are shared by all cases (pre-electra / electra chain x three fork-schedule variants, 1 s slots, 16-slot epochs); each case adds its own validator set and runs the first slot that starts >= 0.4 s after the case is set up; the plan is drawn in logical node numbers and rotated by slot mod n so that QBFT leader election does not depend on the wall-clock slot; p2p identities come from a process-wide pool")
 	r.Assume("scheduler and fetcher are harness stubs (they trigger duties and supply each node's own candidate data); deadliners are harness stubs (nothing expires unless the case expires it); the consensus controller / priority protocol, tracker and the beacon-node submission itself are not part of the cluster")
@@ -144,8 +144,9 @@ func runCase(r *kit.Run, c *kit.Case, sampled *atomic.Int32) {
 	for i := 0; i < w.n; i++ {
 		if w.isByz(i) {
 			d := &byzDriver{w: w, idx: i, rng: r.Rand(c.Idx, 300+w.logical(i))}
+			d.schedule(w.p.ByzActions)
 			drivers = append(drivers, d)
-			w.go_(func() { d.run(w.p.ByzActions) })
+			w.go_(d.run)
 			if w.p.ByzConsensus[i] && os.Getenv("C01_NOBYZCONS") == "" {
 				bc := &byzCons{w: w, idx: i, rng: r.Rand(c.Idx, 400+w.logical(i))}
 				r.Count("byzcons/identities", 1)
